@@ -29,6 +29,7 @@ type Cmd struct {
 	Fails   int    `json:"fails"`    // the handler fails this many times before succeeding (99 = always)
 	ErrKind string `json:"err_kind"` // which error value the handler returns when it fails (see handlerError)
 	ErrLen  int    `json:"err_len"`  // length of the "long" error text
+	ErrText string `json:"err_text,omitempty"` // the text of the "hostile" error kind (see hostileText)
 	ZeroRes bool   `json:"zero_res"` // the handler returns the zero Res (with and without an error)
 }
 
@@ -166,8 +167,42 @@ func handlerError(c *Cmd, att int) error {
 		return errors.New("true")
 	case "zero": // the value of the has-error flag of a success
 		return errors.New("0")
+	case "hostile": // text some layer between handler and caller might re-interpret; it is data, the caller must get it verbatim
+		return errors.New(c.ErrText)
 	}
 	return fmt.Errorf("handler failed for %s attempt %d", c.ID, att)
+}
+
+// Fragments of error texts that a layer between the handler and the caller could re-interpret instead of carrying them as data:
+// printf verbs and what fmt prints for a bad verb, url-escapes, SQL LIKE patterns, template / shell placeholders, escapes written
+// out, entities, header separators, quotes. Real handler errors contain such text ("disk 100% full", a quoted URL, a query,
+// text that embeds the output of another formatter).
+var reinterpretable = []string{
+	"%", "%%", "%s", "%d", "%v", "%+v", "%w", "%q", "%x", "%T", "%[1]s", "%[2]d", "%-8.3f", "%*d", "%!", "%!s(MISSING)", "%!(EXTRA string=x)", "%!(NOVERB)",
+	"%20", "%2F", "%c3%a9", "% ", "0%", " LIKE '%ab_%' ", "{}", "{0}", "{{.}}", "${HOME}", "$1", "\\n", "\\x00", "\\u00e9", "\\", "&amp;", "&#37;", "\r\n", "\x00", ": ", "\"", "`", "'",
+}
+
+// hostileText composes the error text of the "hostile" error kind: 1..4 segments, each drawn from vlib's hostile-string
+// generator (valid UTF-8 mixing control, ASCII punctuation incl. '%', multi-byte runes and printf / escape fragments) or from
+// reinterpretable; half of the texts also name the command the way the plain kind does (in front, in the middle or at the end).
+func hostileText(r *vlib.Rand, cmd string) string {
+	var segs []string
+	for i, n := 0, r.Range(1, 4); i < n; i++ {
+		if r.Chance(0.55) {
+			segs = append(segs, r.UTF8(24))
+		} else {
+			segs = append(segs, reinterpretable[r.Intn(len(reinterpretable))])
+		}
+	}
+	if r.Bool() {
+		at := r.Intn(len(segs) + 1)
+		segs = append(segs[:at], append([]string{" handler failed for " + cmd + " "}, segs[at:]...)...)
+	}
+	text := strings.Join(segs, "")
+	if text == "" { // the empty text is the "empty" kind
+		text = reinterpretable[r.Intn(len(reinterpretable))]
+	}
+	return text
 }
 
 // outcome is what a handler returned for one delivery of a command.
@@ -247,6 +282,7 @@ func init() {
 			"the ReplyPublishErrorHandler answers per (command, attempt) nil (the lost reply is tolerated) or an error (the publish error itself or an unrelated one); expected handler calls and replies per command follow from simulating the script (a command whose every reply is lost and tolerated has no reply at all: its caller ends by its context / the time-out). " +
 			"Error values x AckCommandErrors (own PRNG stream derived from (seed, case index)): 35% of the handled commands have a failing handler (1..3 failures, or - with AckCommandErrors=true, 30% of them - a failure on EVERY invocation) whose error VALUE is one of {context.Canceled, %w / pkg/errors.Wrap / errors.Join around context.Canceled, an error with empty text that unwraps to context.Canceled, context.DeadlineExceeded plain and wrapped, wrapped os.ErrDeadlineExceeded, io.EOF plain and wrapped, wrapped io.ErrClosedPipe, an error whose Is method answers true for every target (and that has Timeout/Temporary/Unwrap []error), an error whose As method fills ReplyTimeoutError / ReplyUnmarshalError targets, " +
 			"a typed nil pointer of an error type, requestreply.ReplyTimeoutError / ReplyUnmarshalError / CommandHandlerError values} while the command message's context is alive: what the error is must not matter - one reply per invocation carrying that error text, settlement as AckCommandErrors says (the clauses below; a command redelivered more than 60 times is runaway-redelivery, which is how a nack of an always-failing command under AckCommandErrors=true shows up). " +
+			"Hostile error texts (own PRNG stream derived from (seed, case index)): 30% of the handled commands have a failing handler (1..2 failures if it had none) whose error TEXT is 1..4 segments drawn from vlib's hostile-string generator Rand.UTF8 (control characters, NUL, quotes, '%', multi-byte runes, printf / escape fragments) and from a pool of fragments a layer between handler and caller could re-interpret instead of carrying them as data {printf verbs incl. indexed / width forms and fmt's bad-verb output, url-escapes, a trailing '%', SQL LIKE pattern, template / shell placeholders, written-out escapes, entities, CRLF, NUL, quotes}, with or without the command's name in it; the reply must carry that text byte for byte (reply-error-text; counters error_replies_with_hostile_text_received / ..._percent_sign_...). " +
 			"Oracle: every reply a caller receives belongs to its own command (the notification the reply exposes is the one the backend published for a delivery of that command; result id / error text when they name a command) and carries exactly what the handler returned for that delivery: error present iff the handler returned one (reply-error-lost / reply-error-invented), the same error text (reply-error-text), the same result (reply-result); a caller that reads until it has them (promptly or late) gets every reply produced for its command as long as neither a time-out nor a context deadline can end the listening first (reply-missing / reply-lost-while-not-reading when it waits for ever at quiescence); the command message is unsettled when its reply is published (settled-before-reply-published) and at quiescence every single delivery of every command is settled cell by cell as the statement and the godoc of PubSubBackendConfig say: reply published -> ack, nack iff the handler failed and AckCommandErrors=false (command-settlement); reply publish failed and no ReplyPublishErrorHandler configured ('Command will be nacked by default when sending reply fails') or it returned an error ('If it returns an error the command will be nacked') -> nack, never ack (acked-without-reply); " +
 			"reply publish failed and the ReplyPublishErrorHandler returned nil -> the lost reply decides nothing, the delivery is acked or nacked as AckCommandErrors says for the handler's outcome (tolerated-reply-loss-settlement); with AckCommandErrors=true the handler runs exactly 1 + (untolerated reply-publish failures) times; when callers wait for ever at quiescence the settlements are judged first (a wrongly acked command explains the missing replies of its redeliveries); " +
 			"after cancel / cancellation of the caller's context (or, when ListenForReplyTimeout is configured or the caller's context has a near deadline, after that alone: such callers never end the request themselves; a reading caller must then see the channel closed - timeout-not-honoured / context-end-not-honoured when it reads for ever at quiescence, the 1 h deadline still pending) and at quiescence OnListenForReplyFinished ran exactly once per request and no listener goroutine remains - checked before the harness touches the reply channel of callers that stopped reading - and then the reply channel is observed closed; for a request whose send failed the same is demanded per started listener (a decorator around the backend handed to SendWith* counts the listeners started and keeps their reply channels): OnListenForReplyFinished ran as often as listeners were started (listener-not-finished-after-failed-send) and the channel the caller never got is closed (reply-channel-not-closed-after-failed-send). " +
@@ -303,6 +339,7 @@ type caller struct {
 	sendErr    string
 	errKind    string   // error value of a failing handler
 	errLen     int      // length of the long error text
+	errText    string   // text of the hostile error kind
 	unsent     bool     // the only send of this command fails: no handler ever sees it
 	zeroRes    bool     // the handler returns the zero Res
 	sendFault  string   // fault in the command-sending path of the first attempt ("" = none)
@@ -785,6 +822,28 @@ func run(e *vlib.Env) vlib.Result {
 	if errValueCmds > 0 {
 		res.Class += "/error-values"
 	}
+	// Hostile error TEXTS (own PRNG stream derived from (seed, case index): the earlier dimensions of a case are unchanged): 30% of
+	// the handled commands get a failing handler (if they had none: 1..2 failures) whose error text is data that a layer between
+	// the handler and the caller might re-interpret (hostileText). "carrying the handler's ... error text": verbatim (reply-error-text).
+	rTxt := vlib.NewRand(e.Seed, "C18/hostile-texts", e.Idx)
+	hostileCmds, hostilePercent := 0, 0
+	for _, c := range callers {
+		pick, text, addFails := rTxt.Chance(0.3), hostileText(rTxt, c.id), rTxt.Range(1, 2)
+		if !pick || c.noReply || c.unsent {
+			continue
+		}
+		c.errKind, c.errText = "hostile", text
+		if c.fails == 0 {
+			c.fails = addFails
+		}
+		hostileCmds++
+		if strings.Contains(text, "%") {
+			hostilePercent++
+		}
+	}
+	if hostileCmds > 0 {
+		res.Class += "/hostile-texts"
+	}
 	// Reply-publish faults x ReplyPublishErrorHandler x handler outcome (drawn from the dimension's own stream): the reply publisher
 	// rejects the reply of the scripted handler attempts (any of the first three, per handler with fan-out; the earlier dimension
 	// "first reply of a command whose handler succeeds" is kept), the ReplyPublishErrorHandler - when the case configures one -
@@ -947,7 +1006,7 @@ func run(e *vlib.Env) vlib.Result {
 			mu.Lock()
 			c.cancelCtx = cancelCtx
 			mu.Unlock()
-			var cmd any = &Cmd{ID: c.id, Fails: c.fails, ErrKind: c.errKind, ErrLen: c.errLen, ZeroRes: c.zeroRes}
+			var cmd any = &Cmd{ID: c.id, Fails: c.fails, ErrKind: c.errKind, ErrLen: c.errLen, ErrText: c.errText, ZeroRes: c.zeroRes}
 			if c.noReply {
 				cmd = &Void{ID: c.id}
 			}
@@ -1416,6 +1475,8 @@ func run(e *vlib.Env) vlib.Result {
 	res.Count("send_faults_scripted", faulted)
 	res.Count("commands_whose_handler_error_is_a_sentinel_value", errValueCmds)
 	res.Count("commands_failing_on_every_invocation_with_AckCommandErrors", alwaysFailing)
+	res.Count("commands_whose_handler_error_text_is_hostile", hostileCmds)
+	res.Count("commands_whose_handler_error_text_contains_a_percent_sign", hostilePercent)
 	res.Count("send_fault_retries", retried)
 	res.Count("reply_channels_seen_closed_after_failed_send", closedAfterFault)
 	res.Count("listeners_still_running_after_send_panic_until_context_end", panicKept)
@@ -1474,6 +1535,12 @@ func run(e *vlib.Env) vlib.Result {
 		kinds["error_replies_received"] += c.errReplies
 		if c.errKind == "empty" || c.errKind == "typed-empty" {
 			kinds["error_replies_with_empty_text_received"] += c.errReplies
+		}
+		if c.errKind == "hostile" {
+			kinds["error_replies_with_hostile_text_received"] += c.errReplies
+			if strings.Contains(c.errText, "%") {
+				kinds["error_replies_with_percent_sign_in_text_received"] += c.errReplies
+			}
 		}
 	}
 	mu.Unlock()
